@@ -46,6 +46,7 @@ class Hooks:
         self.sets = []
         self.saved = []
         self.attached = {}
+        self.broken = set()
         if kind == "ordered":
             import superrec2.compute.super_reconciliation as mod
 
@@ -67,7 +68,11 @@ class Hooks:
 
         def wrapper(*a, **k):
             r = orig(*a, **k)
-            record(a, k, r)
+            try:
+                record(a, k, r)
+            except Exception:  # noqa: BLE001 - a changed signature / return type silences the hook, never the solver
+                self.attached[name] = False
+                self.broken.add(name)
             return r
 
         setattr(mod, name, wrapper)
@@ -193,21 +198,27 @@ def check_case(ctx, prop, case, algos, report=None, hooks=None, tables=True, sel
             for mon, msg, d in judge(B, algo, obs, mn, B.root_order):
                 report(mon, f"{algo}/{pol.name}: {msg}", algo=algo, policy=pol.name, **d)
             if hooks and obs.exc is None and B.G.is_binary() and B.S.is_binary():
-                if kind == "ordered" and tables and hooks.tables:
-                    fails, n = judge_spfs_tables(B, algo, hooks, ctx)
-                    ctx.count("mon.table_cells", n)
-                    for mon, msg, d in fails:
-                        report(mon, f"{algo}/{pol.name}: {msg}", algo=algo, policy=pol.name, **d)
-                if kind == "unordered":
-                    fails, n = judge_uspfs(B, algo, hooks, ctx)
-                    ctx.count("mon.sets", n)
-                    for mon, msg, d in fails:
-                        report(mon, f"{algo}/{pol.name}: {msg}", algo=algo, policy=pol.name, **d)
-                    if tables and hooks.tables:
-                        fails, n = judge_uspfs_tables(B, algo, hooks, ctx)
+                try:
+                    if kind == "ordered" and tables and hooks.tables:
+                        fails, n = judge_spfs_tables(B, algo, hooks, ctx)
                         ctx.count("mon.table_cells", n)
                         for mon, msg, d in fails:
                             report(mon, f"{algo}/{pol.name}: {msg}", algo=algo, policy=pol.name, **d)
+                    if kind == "unordered":
+                        fails, n = judge_uspfs(B, algo, hooks, ctx)
+                        ctx.count("mon.sets", n)
+                        for mon, msg, d in fails:
+                            report(mon, f"{algo}/{pol.name}: {msg}", algo=algo, policy=pol.name, **d)
+                        if tables and hooks.tables:
+                            fails, n = judge_uspfs_tables(B, algo, hooks, ctx)
+                            ctx.count("mon.table_cells", n)
+                            for mon, msg, d in fails:
+                                report(mon, f"{algo}/{pol.name}: {msg}", algo=algo, policy=pol.name, **d)
+                except (KeyError, TypeError, AttributeError, IndexError, ValueError) as exc:
+                    # the private table / set structures are not what the hook expects (refactored): auxiliary monitor off
+                    if len(ctx.notes) < 20:
+                        ctx.notes.append(f"hook not attached: table/set structures of {algo} could not be read ({type(exc).__name__})")
+                    hooks.tables, hooks.sets = [], []
         if algo == algos[0]:
             one, nopt = suite.one_optimal_mapping(B)
             ctx.sig(suite.super_signature(B, algo, mn, None, one), len(B.G.leaves()) >= 2 and (mn == INF or mn > 0))
